@@ -30,6 +30,7 @@ from ..model import walk_no_nested, norm, call_name, is_self_attr, is_self_call,
 from ..facts import FuncFacts, facts_at, stmt_paths
 from ..report import Ctx, AnalysisError
 from ..flow import local_defs
+from .. import ptrules
 
 PT = "pydcop.computations_graph.pseudotree"
 KINDS = {"parent": "parent", "children": "children", "pseudo_children": "pseudo_children", "pseudo_parent": "pseudo_parents"}
@@ -296,7 +297,7 @@ def check(ctx: Ctx):
     wl_ = [n for n in ast.walk(li.node) if isinstance(n, ast.Compare) and isinstance(n.ops[0], ast.NotIn) and isinstance(n.comparators[0], (ast.List, ast.Tuple))]
     white = {e.value for e in wl_[0].comparators[0].elts} if wl_ else set()
     gr = repo.func(PT, "get_dfs_relations")
-    read = {n.comparators[0].value for n in ast.walk(gr.node) if isinstance(n, ast.Compare) and norm(n.left) == "l.type" and isinstance(n.comparators[0], ast.Constant)}
+    rd_ok, rd_why, read = ptrules.reader_ok(gr.node)
     ctx.check(set(written) == set(KINDS) and set(written) <= white and set(written) <= read, "R-LINKTABLE", "the four link kinds are written, accepted and read", ci, ci.node,
               f"written {sorted(written)}, accepted {sorted(white)}, read {sorted(read)}")
     for kind, c in sorted(written.items()):
@@ -322,11 +323,9 @@ def check(ctx: Ctx):
         ok = ok and (direct or bool(via))
         ctx.check(ok, "R-LINKTABLE", f"'{kind}' links: one per element of the node's {KINDS[kind]} list, source = the node", ci, c,
                   "DPOP reads parent / children / pseudo parents from these links: a kind built from another list, or with source and target swapped, yields an inconsistent tree")
-    # reader: kind -> slot
-    t = norm(gr.node)
-    ok = "if l.type == 'parent' and l.source == tree_node.name:\n        parent = l.target" in t.replace("            ", "        ") or ("l.type == 'parent' and l.source == tree_node.name" in t and "parent = l.target" in t)
-    ok = ok and "children.append(l.target)" in t and "pseudo_children.append(l.target)" in t and "pseudo_parents.append(l.target)" in t and "return (parent, pseudo_parents, children, pseudo_children)" in t
-    ctx.check(ok, "R-LINKTABLE", "get_dfs_relations returns (parent, pseudo_parents, children, pseudo_children) from the node's own links", gr, gr.node, "")
+    # reader: kind -> slot, decided by cases (ptrules)
+    ok = rd_ok
+    ctx.check(ok, "R-LINKTABLE", "get_dfs_relations returns (parent, pseudo_parents, children, pseudo_children) from the node's own links", gr, gr.node, rd_why)
     ctx.floor("R-DFS", 6)
     ctx.floor("R-LINKTABLE", 6)
 
